@@ -436,3 +436,34 @@ def r6(ctx: Ctx) -> None:
     h_ = ("a", ("a", ("self",), "_shape"), "h")
     val = Sigma(attrs={"shape": "_shape"}).apply(car[0][1])
     check_law(ctx, far, "area == w * h", val, (to_poly(w_) * to_poly(h_)).to_s())
+
+
+@rule("C18", "R7.containment-definition", "PRED",
+      "is_inside and point_inside are the coordinate comparisons of plane geometry (closed on all four sides), touches "
+      "the same with the distance tolerance; none of them goes through intersection / equality of rectangles (which also "
+      "compare regions and rebuilt float geometry)", floor=3)
+def r7(ctx: Ctx) -> None:
+    s_, o = ("self",), ("p", 0)
+
+    def bb(obj, corner, axis):
+        return ("a", ("a", ("a", obj, "bounding_box"), corner), axis)
+    from framelint.canon import mk_and
+    f = ctx.func(GEOM, R + "is_inside")
+    c = canon_function(f, ctx.model)
+    want = mk_and([mk_not(mk_lt(bb(s_, "ll", a), bb(o, "ll", a))) for a in "xy"] + [mk_not(mk_lt(bb(o, "ur", a), bb(s_, "ur", a))) for a in "xy"])
+    ctx.site(f.where, "is_inside == ll >= other.ll and ur <= other.ur on both axes")
+    if c != (("ret", want),):
+        ctx.report(f.where, "is-inside-definition " + "; ".join(show(x) for x in c)[:200], "is_inside is not the four closed comparisons of the bounding boxes", lineno=f.node.lineno)
+    f = ctx.func(GEOM, R + "point_inside")
+    c = canon_function(f, ctx.model)
+    want = mk_and([mk_not(mk_lt(("a", o, a), bb(s_, "ll", a))) for a in "xy"] + [mk_not(mk_lt(bb(s_, "ur", a), ("a", o, a))) for a in "xy"])
+    ctx.site(f.where, "point_inside == ll <= p <= ur on both axes")
+    if c != (("ret", want),):
+        ctx.report(f.where, "point-inside-definition " + "; ".join(show(x) for x in c)[:200], "point_inside is not ll <= p <= ur on both axes (closed)", lineno=f.node.lineno)
+    f = ctx.func(GEOM, R + "touches")
+    c = canon_function(f, ctx.model)
+    eps = ("c", ("a", ("g", "Rectangle"), "distance_epsilon"), (), ())
+    want = mk_and([mk_not(mk_lt((to_poly(bb(b_, "ur", a)) + to_poly(eps)).to_s(), bb(a_, "ll", a))) for a in "xy" for a_, b_ in ((s_, o), (o, s_))])
+    ctx.site(f.where, "touches == the bounding boxes overlap or abut within the distance tolerance, on both axes")
+    if c != (("ret", want),):
+        ctx.report(f.where, "touches-definition " + "; ".join(show(x) for x in c)[:200], "touches is not 'll <= other.ur + eps' for both operands on both axes", lineno=f.node.lineno)
